@@ -115,6 +115,8 @@ Definition us_of (t : tv) : Z := (tv_sec t * 1000000 + tv_usec t)%Z.
 Definition normal (t : tv) : Prop := (0 <= tv_usec t < 1000000)%Z.
 Definition expired (start now : tv) (ms : Z) : Prop := (us_of now - us_of start >= ms * 1000)%Z.
 
-(* "a locally generated error if its timeout expires": the wait gives up only when the timeout has expired *)
+(* "a locally generated error if its timeout expires": the wait gives up only when the timeout has expired.
+   The readings come from CLOCK_MONOTONIC (since repo commit 09f2f87 also in the CMake build), so they never go down. *)
 Definition C17_timeout_not_early_full_statement : Prop :=
-  forall start now ms, normal start -> normal now -> (0 <= ms)%Z -> give_up start now ms = true -> expired start now ms.
+  forall start now ms, normal start -> normal now -> (us_of start <= us_of now)%Z -> (0 <= ms)%Z ->
+    give_up start now ms = true -> expired start now ms.
